@@ -340,5 +340,59 @@ def mt_violation(run, r):
     print("  concurrent outcome differs from every sequential order: " + json.dumps(r.get("agg"))[:400])
 
 
-CHECKS = {"C08": c08, "C12": c12, "C01": c01, "C02": c02, "C03": c03, "C04": c04, "C05": c05, "C06": c06, "C07": c07,
+TIMER_INV = ["AtMostOneOutcome", "CompletedOnlyIfAnswered", "ClearedOnlyIfAppCleared", "EarlyClearSendsNothing",
+             "ExactlyOneClearRequest", "DropHandleNeverCancels", "AbandonedOnlyIfDropped", "NothingAfterOutcome"]
+
+
+def c18(run):
+    run.assumptions = [
+        "command API timers hosted one per Command and inspected directly; responses carry the kind and id the "
+        "protocol requires (a mismatched response is a documented developer error that panics)",
+        "the legacy capability API's clear is covered by the D11 finding, not by this model"]
+    q = run.quick
+    total = 0
+    for n, maxact in ((1, 9 if q else 11), (2, 7 if q else 8)) + (() if q else ((3, 6),)):
+        cfg = "SPECIFICATION MSpec\nCONSTANT N = %d\n" % n + "".join(f"INVARIANT {i}\n" for i in TIMER_INV) + \
+              "INVARIANT EmitSched\nCONSTRAINT Useful\nCHECK_DEADLOCK FALSE\n"
+        out = lib.mc(run, "MC_Timer", cfg, {"MAXACT": str(maxact)}, workers=8, timeout=1500, label=f"MC_Timer[N={n},maxact={maxact}]")
+        scheds = []
+        for m in lib.re.finditer(r'<<\s*"SCHED",\s*"((?:[^"\\]|\\.)*)"\s*>>', out, lib.re.S):
+            scheds.append(json.loads(m.group(1).replace('\\"', '"')))
+        cap = 20000 if q else 200000
+        if len(scheds) > cap:
+            step = len(scheds) / cap
+            scheds = [scheds[int(i * step)] for i in range(cap)]
+        if not scheds:
+            raise lib.ToolError("no timer schedules harvested")
+        cp, tp = run.path(f"timer{n}.cases"), run.path(f"timer{n}.trace")
+        with open(cp, "w") as f:
+            for k, s in enumerate(scheds):
+                kinds = ["after" if (k + j) % 2 == 0 else "at" for j in range(n)]
+                f.write(json.dumps({"n": n, "kinds": kinds, "steps": s}) + "\n")
+        run.sample({"source": "TLC behaviour of Timer.tla", "timers": n, "steps": scheds[len(scheds) // 2]})
+        rc, o = lib.sh([lib.BIN, "time", cp, tp], timeout=1800)
+        if rc != 0:
+            raise lib.ToolError("timer harness failed: " + o[-2000:])
+        lib.validate_simple(run, "Trace_Timer", tp, consts=f"CONSTANT N = {n}\n", label=f"replay[N={n}]")
+        total += len(scheds)
+        if n == 1:
+            # binding self-test: a corrupted outcome must be rejected
+            lines = open(tp).read().splitlines()[:400]
+            for i, l in enumerate(lines):
+                if "ev_completed" in l:
+                    lines[i] = l.replace("ev_completed", "ev_cleared")
+                    break
+            else:
+                raise lib.ToolError("timer self-test found nothing to corrupt")
+            cut = max(j for j in range(i + 1, len(lines)) if '"e":"tcase"' in lines[j]) if i + 1 < len(lines) else len(lines)
+            bad = run.path("timer.corrupt")
+            with open(bad, "w") as f:
+                f.write("\n".join(lines[:cut]) + "\n")
+            rc, o = lib.tlc("Trace_Timer", lib.SIMPLE_CFG.format(consts="CONSTANT N = 1\n"), {"TRACE": bad}, dfs=True, tag="st")
+            if "REJECTED_AT" not in o:
+                raise lib.ToolError("Trace_Timer accepted a corrupted trace")
+            run.stages.append({"stage": "binding-selftest", "spec": "Trace_Timer", "corruptions_rejected": 1})
+
+
+CHECKS = {"C18": c18, "C08": c08, "C12": c12, "C01": c01, "C02": c02, "C03": c03, "C04": c04, "C05": c05, "C06": c06, "C07": c07,
           "C09": c09, "C13": c13}
